@@ -61,6 +61,9 @@ def kind_atom(e) -> Optional[Tuple[Set[str], bool]]:
         x.func.id in ('frozenset', 'set', 'tuple', 'list')) and len(
             x.args) == 1 and not x.keywords:
       return kind_const(x.args[0])
+    if isinstance(x, ast.Dict) and x.keys and all(
+        k is not None for k in x.keys):
+      x = ast.Tuple(elts=list(x.keys), ctx=ast.Load())  # membership in keys
     if isinstance(x, (ast.Tuple, ast.List, ast.Set)):
       out = set()
       for el in x.elts:
@@ -74,7 +77,16 @@ def kind_atom(e) -> Optional[Tuple[Set[str], bool]]:
   if is_kind(r) and not is_kind(l):
     l, r = r, l
   if not is_kind(l):
-    return None
+    # a plain variable holding a kind: `kind == Parameter.VAR_POSITIONAL`
+    # (only against an explicit kind constant, never a named collection)
+    def explicit(x):
+      return isinstance(x, ast.Attribute) and x.attr in KINDS
+    if isinstance(l, ast.Name) and explicit(r):
+      pass
+    elif isinstance(r, ast.Name) and explicit(l):
+      l, r = r, l
+    else:
+      return None
   ks = kind_const(r)
   if ks is None:
     return None
